@@ -30,3 +30,8 @@ for cid in ids:
     print(name, cid, "caught" if rc == 1 else f"MISSED (exit {rc})", [c[0] for c in classes][:4], (summ[-1] if summ else "")[:140])
 sh("git checkout -q -- . && git clean -fdq")
 json.dump(meta, open(os.path.join(d, "meta.json"), "w"), indent=1)
+
+# scratch build dirs of this worktree (vcheck keeps one per tree and check)
+import glob as _glob, shutil as _shutil
+for _d in _glob.glob("/verif/build/*-" + wt.strip("/").replace("/", "_")):
+    _shutil.rmtree(_d, ignore_errors=True)
